@@ -68,9 +68,10 @@ def r17_1(ctx):
                 if X not in lists:
                     continue
                 n_sites += 1
-                gs = fl.guards_at(s) or set()
+                from ..provenance import effective_guards
+                gs = effective_guards(fl, res, f.node, s)
                 Xr, yr = res.text(s.func.value), res.text(s.args[0])
-                if (f"{y} in {X}", True) in gs or (f"{yr} in {Xr}", True) in gs:
+                if (f"{y} in {X}", True) in gs or (f"{yr} in {Xr}", True) in gs or (f"{y} in {Xr}", True) in gs:
                     ctx.ok(construct, f.loc(s), by="positive membership test")
                     continue
                 # repair idiom: a preceding sibling `if y not in X:` whose body switches show_all on and recomputes X
